@@ -106,7 +106,7 @@ CHECKS = {
         "assumptions": ["sig_ok and addr_of are oracles (recorded per input from the run)"],
     },
     "C04": {
-        "suites": chain_suites(4),
+        "suites": chain_suites(4, extra=[{"suite": "forks", "n_quick": 96, "n_thorough": 3000, "shards": 8, "shards_thorough": 16, "seed_off": 4}]),
         "monitor_props": ["C04"],
         "mismatch_kinds": ["validate", "update"],
         "rule": CHAIN_RULE + " For C04 the mutated neighbors break one rule at one height: timestamp shifted, tail in the future, two rewards, no reward, transaction dated after its block or before the previous one, broken link, truncated, first block dropped; production ticks are aligned, repeated, skipped and (for the correspondence only) unaligned.",
